@@ -172,14 +172,14 @@ Section Perm.
     intros y Hy. apply Hn. eapply Permutation_in; [apply Permutation_sym; exact HP|exact Hy].
   Qed.
 
-  Lemma run_gens_perm secret gens : forall m m' x,
-    Forall creates gens -> Permutation m m' -> run_gens nonstr secret gens m = Ok x ->
-    exists x', run_gens nonstr secret gens m' = Ok x' /\ Permutation x x'.
+  Lemma run_gens_perm go secret gens : forall m m' x,
+    Forall creates gens -> Permutation m m' -> run_gens nonstr go secret gens m = Ok x ->
+    exists x', run_gens nonstr go secret gens m' = Ok x' /\ Permutation x x'.
   Proof.
     induction gens as [|g t IH]; intros m m' x Hc HP H; cbn [run_gens] in *.
     - inv H. eauto.
     - inversion Hc as [|? ? Hg Ht]; subst.
-      destruct (gen_resource secret g) as [r| | |]; cbn [bind] in *; try discriminate.
+      destruct (gen_resource secret (merge_genopts go g)) as [r| | |]; cbn [bind] in *; try discriminate.
       destruct (absorb nonstr m _ r) as [m1| | |] eqn:EA; cbn [bind] in H; try discriminate.
       destruct (absorb_create_perm _ _ _ _ _ Hg HP EA) as [-> EA']. rewrite EA'. cbn [bind].
       eapply IH; [exact Ht| |exact H]. apply Permutation_app_tail. exact HP.
@@ -193,11 +193,11 @@ Section Perm.
     induction ks as [|k t IH]; intros m m' x HP H; cbn [run_generator_kinds] in *.
     - inv H. eauto.
     - match type of H with bind ?E _ = _ => destruct E as [mm| | |] eqn:E1 end; cbn [bind] in H; try discriminate.
-      assert (exists mm', (if String.eqb k "ConfigMapGenerator" then run_gens nonstr false (pd_cmgens d) m'
-                           else if String.eqb k "SecretGenerator" then run_gens nonstr true (pd_secgens d) m'
+      assert (exists mm', (if String.eqb k "ConfigMapGenerator" then run_gens nonstr (pd_genopts d) false (pd_cmgens d) m'
+                           else if String.eqb k "SecretGenerator" then run_gens nonstr (pd_genopts d) true (pd_secgens d) m'
                            else Ok m') = Ok mm' /\ Permutation mm mm') as (mm' & E2 & P2).
-      { destruct (String.eqb k "ConfigMapGenerator"); [exact (run_gens_perm _ _ _ _ _ Hc1 HP E1)|].
-        destruct (String.eqb k "SecretGenerator"); [exact (run_gens_perm _ _ _ _ _ Hc2 HP E1)|].
+      { destruct (String.eqb k "ConfigMapGenerator"); [exact (run_gens_perm _ _ _ _ _ _ Hc1 HP E1)|].
+        destruct (String.eqb k "SecretGenerator"); [exact (run_gens_perm _ _ _ _ _ _ Hc2 HP E1)|].
         inv E1. eauto. }
       rewrite E2. cbn [bind]. eapply IH; eauto.
   Qed.
